@@ -34,6 +34,7 @@ import CookModel.Lemmas.DiagPlaceDocQty
 import CookModel.Lemmas.DiagPlaceName
 import CookModel.Lemmas.DiagPlaceDocMore
 import CookModel.Lemmas.DiagPlaceInter
+import CookModel.Lemmas.DiagPlaceDocName
 /-
   C07  Diagnostics are sound, complete and placed on the offending construct.
 
@@ -4135,5 +4136,131 @@ example : (parseRecipe (α := Rat)
       { C07_coreEnv with ext := ⟨Gen.EXT_COMPONENT_MODIFIERS ||| Gen.EXT_INTERMEDIATE_PREPARATIONS⟩ }
       "Use @&(x)y{} now\n".toList).diags.toList =
     [⟨.error, .parse, "inter-ref-invalid", [⟨7, 8⟩]⟩] := by decide +kernel
+
+-- ===== w10c07doc =====
+/-! ## Document-level instances for the pieces WITHOUT a quantity diagnostic (wave 10)
+
+  Duplicate modifiers, modifiers on cookware, the empty-name family (`@{}`, `#{}`, `@{Q}`, `#{Q}`, `@|x{}`), alias
+  errors: the step-level pieces (`C07_planted_constructs`, `C07_planted_cookware_modifiers`,
+  `C07_planted_empty_name_family`, `C07_planted_empty_name_alias`, `C07_planted_alias_errors`) are stated on ACTUAL
+  tokens.  Here the construct is given by SPECIFICATION tokens, every condition is on them (kinds and texts: they
+  transfer along `Spells`), and the expected events are a function of the actual parts of the block
+  (`c07v_compSpec … F`: the actual block is `marker ms name { Q }`, its parts spell the specified ones, the events are
+  `F` of the actual parts — labels are byte offsets of the document).  Each conclusion is the hypothesis `hB` of
+  `C07_planted_document`.  `Lemmas/DiagPlaceDocName.lean`. -/
+
+/-- **Instance: modifiers planted in a document** (`@&&x{}`, `#@x{}`, `#&&x{}`; plain modifier tokens, a name showing
+    a non-blank character in a plain token, no alias separator, blank braces, not followed by `(`).
+    * ingredient: EXACTLY one `duplicate-modifier` (error, parse; the span of all the actual modifier tokens) per
+      modifier token repeating an earlier one, then the ingredient with the accumulated flags (`c07v_dupIngrF`);
+    * cookware: the same, then `cookware-recipe-modifier` on the first `@` iff there is one, then the item
+      (`c07v_cwModsF`). -/
+theorem C07_planted_document_modifiers (env : Env) (pre post : List SegX) (tmS : Tok) (msS nameS : List Tok)
+    (tobS : Tok) (QS : List Tok) (tcbS : Tok) (hs : SimpleMods msS) (hQ : ∀ t ∈ QS, isPadK t = true)
+    (halias : env.ext.has Gen.EXT_COMPONENT_ALIAS = false ∨ ∀ t ∈ nameS, t.kind ≠ .or)
+    (hname : ∃ t ∈ nameS, plainKind t.kind = true ∧ NBs env.cs t.text) :
+    (PlShape env.ext .at tmS msS nameS tobS QS tcbS (post.flatMap SegX.spell) →
+      ∀ (T tpre tB tpost : List Tok), T = tpre ++ (tB ++ tpost) → Spells tpre (pre.flatMap SegX.spell) →
+        Spells tB (c07p_comp tmS msS nameS tobS QS tcbS) → Spells tpost (post.flatMap SegX.spell) →
+        RunAt (baseOff T) T →
+        PlPieceAt (α := α) T env.cs env.ext tpre ⟨tB, c07v_compSpec msS nameS QS tB (c07v_dupIngrF T tpre)⟩) ∧
+    (PlShape env.ext .hash tmS msS nameS tobS QS tcbS (post.flatMap SegX.spell) →
+      ∀ (T tpre tB tpost : List Tok), T = tpre ++ (tB ++ tpost) → Spells tpre (pre.flatMap SegX.spell) →
+        Spells tB (c07p_comp tmS msS nameS tobS QS tcbS) → Spells tpost (post.flatMap SegX.spell) →
+        RunAt (baseOff T) T →
+        PlPieceAt (α := α) T env.cs env.ext tpre ⟨tB, c07v_compSpec msS nameS QS tB (c07v_cwModsF T tpre)⟩) :=
+  ⟨fun sh T tpre tB tpost hT _ hsB hpost hrun =>
+      c07v_dup_ingr_pieceAt env.cs env.ext tmS msS nameS tobS QS tcbS _ T tpre tB tpost sh hs hQ halias hname hT hsB
+        hpost hrun,
+   fun sh T tpre tB tpost hT _ hsB hpost hrun =>
+      c07v_cw_mods_pieceAt env.cs env.ext tmS msS nameS tobS QS tcbS _ T tpre tB tpost sh hs hQ halias hname hT hsB
+        hpost hrun⟩
+
+/-- **Instance: the empty-name family planted in a document** (name tokens that are padding only — none, spaces, block
+    comments —, no alias separator, not followed by `(`).
+    * `@{}` (no modifiers, blank braces): EXACTLY `empty-name:ingredient` (error, parse; the span of the blank name
+      text at the byte offset after the actual `@`), then the ingredient (`c07v_emptyNameIngrF`);
+    * `# ms {}` (plain modifier tokens, blank braces): `empty-name:cookware`, one `duplicate-modifier` per repeated
+      modifier token, `cookware-recipe-modifier` iff `@` is among them, then the item (`c07v_emptyNameCwF`);
+    * `@{Q}` / `#{Q}` (no modifiers), for ANY reading `l` / `R` of the quantity tokens that holds on every token list
+      spelling them: `empty-name:*` FIRST, then `l Q` (cookware: then `cookware-unit` iff the quantity read has a
+      unit), then the component carrying the quantity read (`c07v_emptyNameIngrQF`, `c07v_emptyNameCwQF`). -/
+theorem C07_planted_document_empty_name_family (env : Env) (pre post : List SegX) (tmS : Tok) (nameS : List Tok)
+    (tobS : Tok) (QS : List Tok) (tcbS : Tok)
+    (halias : env.ext.has Gen.EXT_COMPONENT_ALIAS = false ∨ ∀ t ∈ nameS, t.kind ≠ .or)
+    (hname : padOK env.cs nameS = true) :
+    ((∀ t ∈ QS, isPadK t = true) →
+      (PlShape env.ext .at tmS [] nameS tobS QS tcbS (post.flatMap SegX.spell) →
+        ∀ (T tpre tB tpost : List Tok), T = tpre ++ (tB ++ tpost) → Spells tpre (pre.flatMap SegX.spell) →
+          Spells tB (c07p_comp tmS [] nameS tobS QS tcbS) → Spells tpost (post.flatMap SegX.spell) →
+          RunAt (baseOff T) T →
+          PlPieceAt (α := α) T env.cs env.ext tpre ⟨tB, c07v_compSpec [] nameS QS tB (c07v_emptyNameIngrF T tpre)⟩) ∧
+      (∀ msS : List Tok, SimpleMods msS →
+        PlShape env.ext .hash tmS msS nameS tobS QS tcbS (post.flatMap SegX.spell) →
+        ∀ (T tpre tB tpost : List Tok), T = tpre ++ (tB ++ tpost) → Spells tpre (pre.flatMap SegX.spell) →
+          Spells tB (c07p_comp tmS msS nameS tobS QS tcbS) → Spells tpost (post.flatMap SegX.spell) →
+          RunAt (baseOff T) T →
+          PlPieceAt (α := α) T env.cs env.ext tpre ⟨tB, c07v_compSpec msS nameS QS tB (c07v_emptyNameCwF T tpre)⟩)) ∧
+    (∀ (l : List Tok → List (Ev α)) (R : List Tok → ParsedQuantity α → Prop), (∃ t ∈ QS, isPadK t = false) →
+      (∀ Q, Spells Q QS → ∀ sq : BP α, sq.cs = env.cs → sq.ext = env.ext →
+        Sat (parseQuantity (α := α) Q) sq (fun r s' => Pushed (l Q) sq s' ∧ R Q r)) →
+      (PlShape env.ext .at tmS [] nameS tobS QS tcbS (post.flatMap SegX.spell) →
+        ∀ (T tpre tB tpost : List Tok), T = tpre ++ (tB ++ tpost) → Spells tpre (pre.flatMap SegX.spell) →
+          Spells tB (c07p_comp tmS [] nameS tobS QS tcbS) → Spells tpost (post.flatMap SegX.spell) →
+          RunAt (baseOff T) T →
+          PlPieceAt (α := α) T env.cs env.ext tpre
+            ⟨tB, c07v_compSpec [] nameS QS tB (c07v_emptyNameIngrQF T tpre l R)⟩) ∧
+      (PlShape env.ext .hash tmS [] nameS tobS QS tcbS (post.flatMap SegX.spell) →
+        ∀ (T tpre tB tpost : List Tok), T = tpre ++ (tB ++ tpost) → Spells tpre (pre.flatMap SegX.spell) →
+          Spells tB (c07p_comp tmS [] nameS tobS QS tcbS) → Spells tpost (post.flatMap SegX.spell) →
+          RunAt (baseOff T) T →
+          PlPieceAt (α := α) T env.cs env.ext tpre
+            ⟨tB, c07v_compSpec [] nameS QS tB (c07v_emptyNameCwQF T tpre l R)⟩)) :=
+  ⟨fun hQ =>
+    ⟨fun sh T tpre tB tpost hT _ hsB hpost hrun =>
+        c07v_empty_name_ingr_pieceAt env.cs env.ext tmS nameS tobS QS tcbS _ T tpre tB tpost sh hQ halias hname hT hsB
+          hpost hrun,
+     fun msS hs sh T tpre tB tpost hT _ hsB hpost hrun =>
+        c07v_empty_name_cw_pieceAt env.cs env.ext tmS msS nameS tobS QS tcbS _ T tpre tB tpost sh hs hQ halias hname hT
+          hsB hpost hrun⟩,
+   fun l R hne hQ =>
+    ⟨fun sh T tpre tB tpost hT _ hsB hpost hrun =>
+        c07v_empty_name_ingr_qty_pieceAt env.cs env.ext tmS nameS tobS QS tcbS _ T tpre tB tpost sh halias hname hne l R
+          hQ hT hsB hpost hrun,
+     fun sh T tpre tB tpost hT _ hsB hpost hrun =>
+        c07v_empty_name_cw_qty_pieceAt env.cs env.ext tmS nameS tobS QS tcbS _ T tpre tB tpost sh halias hname hne l R
+          hQ hT hsB hpost hrun⟩⟩
+
+/-- **Instance: alias errors planted in a document** (`@a|b|c{}`, `@a|{}`, `#a|b|c{}`, `@|x{}`, `#|x{}`; COMPONENT_ALIAS
+    on; the first `|` of the SPECIFIED name tokens at index `i`; plain modifier tokens, blank braces, not followed by
+    `(`).  `nameT` = the actual name tokens:
+    * a name showing a non-blank character in a plain token before the `|`: EXACTLY `aliasEvs` (`multiple-aliases:*`
+      from the first `|` to the end of the name tokens iff another `|` follows, else `empty-alias:*` on the `|` iff the
+      alias text is blank), one `duplicate-modifier` per repeated modifier token (cookware:
+      `cookware-recipe-modifier` iff `@` is among them), then the component named by the tokens before the `|`
+      (`c07v_aliasIngrF`, `c07v_aliasCwF`);
+    * padding only before the `|`: `aliasEvs`, then `empty-name:*` on the blank text before the `|`, then the modifier
+      errors, then the component (`c07v_enAliasIngrF`, `c07v_enAliasCwF`). -/
+theorem C07_planted_document_alias_errors (env : Env) (pre post : List SegX) (tmS : Tok) (msS nameS : List Tok)
+    (tobS : Tok) (QS : List Tok) (tcbS : Tok) (i : Nat) (hs : SimpleMods msS) (hQ : ∀ t ∈ QS, isPadK t = true)
+    (he : env.ext.has Gen.EXT_COMPONENT_ALIAS = true) (hi : nameS.findIdx? (fun t => t.kind == .or) = some i)
+    (T tpre tB tpost : List Tok) (hT : T = tpre ++ (tB ++ tpost))
+    (hsB : Spells tB (c07p_comp tmS msS nameS tobS QS tcbS)) (hpost : Spells tpost (post.flatMap SegX.spell))
+    (hrun : RunAt (baseOff T) T) :
+    ((∃ t ∈ nameS.take i, plainKind t.kind = true ∧ NBs env.cs t.text) →
+      (PlShape env.ext .at tmS msS nameS tobS QS tcbS (post.flatMap SegX.spell) →
+        PlPieceAt (α := α) T env.cs env.ext tpre
+          ⟨tB, c07v_compSpec msS nameS QS tB (c07v_aliasIngrF env.cs i T tpre)⟩) ∧
+      (PlShape env.ext .hash tmS msS nameS tobS QS tcbS (post.flatMap SegX.spell) →
+        PlPieceAt (α := α) T env.cs env.ext tpre
+          ⟨tB, c07v_compSpec msS nameS QS tB (c07v_aliasCwF env.cs i T tpre)⟩)) ∧
+    (padOK env.cs (nameS.take i) = true →
+      (PlShape env.ext .at tmS msS nameS tobS QS tcbS (post.flatMap SegX.spell) →
+        PlPieceAt (α := α) T env.cs env.ext tpre
+          ⟨tB, c07v_compSpec msS nameS QS tB (c07v_enAliasIngrF env.cs i T tpre)⟩) ∧
+      (PlShape env.ext .hash tmS msS nameS tobS QS tcbS (post.flatMap SegX.spell) →
+        PlPieceAt (α := α) T env.cs env.ext tpre
+          ⟨tB, c07v_compSpec msS nameS QS tB (c07v_enAliasCwF env.cs i T tpre)⟩)) :=
+  c07v_alias_pieceAt env.cs env.ext tmS msS nameS tobS QS tcbS _ T tpre tB tpost i hs hQ he hi hT hsB hpost hrun
 
 end Cook
